@@ -359,7 +359,12 @@ func c17Meth(x *c17Node, name string, out reflect.Type, args ...*c17Node) *c17No
 func (n *c17Node) src(explicit bool) string {
 	k := func(i int) string { return n.Kids[i].src(explicit) }
 	switch n.K {
-	case "id", "int":
+	case "id":
+		if c17Placeholder && n.S == "C" {
+			return "Y" // visitor mode: the member C is written as the unknown name Y, which a visitor renames to C
+		}
+		return n.S
+	case "int":
 		return n.S
 	case "str":
 		return `"` + n.S + `"`
@@ -474,6 +479,46 @@ func (n *c17Node) positions(where string, depth int, visit func(pos string, n *c
 		}
 		kid.positions(w, depth+1, visit)
 	}
+}
+
+// visitor mode (expr.Patch): the sources name the member C by the placeholder Y and a user visitor
+// renames Y to C between the two type checks
+var c17Placeholder = false
+
+type c17Rename struct{}
+
+func (c17Rename) Enter(*ast.Node) {}
+func (c17Rename) Exit(node *ast.Node) {
+	if id, ok := (*node).(*ast.IdentifierNode); ok && id.Value == "Y" {
+		ast.Patch(node, &ast.IdentifierNode{Value: "C"})
+	}
+}
+
+func (n *c17Node) mentions(name string) bool {
+	if n.K == "id" && n.S == name {
+		return true
+	}
+	for _, k := range n.Kids {
+		if k.mentions(name) {
+			return true
+		}
+	}
+	return false
+}
+
+// finding C17-visitor-after-operators, in harness terms: an overloaded occurrence has a node the
+// visitor replaces inside one of its operands (only then can the first check and PatchOperators
+// have seen other operand types than the second check)
+func (n *c17Node) visitorRisk() bool {
+	if n.K == "bin" && n.Fn != "" && n.mentions("C") {
+		return true
+	}
+	for _, k := range n.Kids {
+		if k.visitorRisk() {
+			return true
+		}
+	}
+	return false
 }
 
 // ---- the retyping defect (finding C17-arg-retype), in harness terms: checkFunc gives the integer
@@ -794,6 +839,8 @@ func (c *c17Ctx) corpus() []*c17Node {
 		c17Slice(plus(Xs, Ys), c17Int(0), c17Int(1)),
 		c17Slice(plus(Ms, Ns), c17Int(1), c17Int(3)),
 		c17Idx(plus(Ms, Ns), c17Int(0)),
+		c17Slice(c.call("Two", plus(A, B), C), c17Int(0), c17Int(1)),
+		c17Idx(c.call("Two", plus(A, B), plus(B, C)), c17Int(1)),
 		c17Idx(plus(Xs, Ys), plus(I, c17Int(1))),
 		c17Idx(Ms, plus(I, c17Int(-2))),
 		over("map", Ms, func(p *c17Node) *c17Node { return plus(p, A) }),
@@ -898,6 +945,8 @@ type c17Input struct {
 	Explicit string              `json:"explicit_form"`
 	EnvIdx   int                 `json:"env_value"`
 	Risk     bool                `json:"retype_risk"`
+	Visitor  bool                `json:"visitor_renames_Y_to_C,omitempty"`
+	VisRisk  bool                `json:"visitor_risk,omitempty"`
 }
 
 // the oracle on one input; returns whether it was judged (both forms compiled)
@@ -912,10 +961,17 @@ func c17Judge(rep *Report, in c17Input, envs []*C17Env) bool {
 		if in.Risk {
 			return "C17-arg-retype"
 		}
+		if in.Visitor && in.VisRisk {
+			return "C17-visitor-after-operators"
+		}
 		return k
 	}
-	pa, ea, paPanic := c17CompileSafe(in.Expr, append([]expr.Option{expr.Env(sample)}, opOpts...))
-	pb, eb, _ := c17CompileSafe(in.Explicit, []expr.Option{expr.Env(sample)})
+	base := []expr.Option{expr.Env(sample)}
+	if in.Visitor {
+		base = append(base, expr.Patch(c17Rename{}))
+	}
+	pa, ea, paPanic := c17CompileSafe(in.Expr, append(append([]expr.Option{}, base...), opOpts...))
+	pb, eb, _ := c17CompileSafe(in.Explicit, base)
 	if paPanic {
 		rep.fail(Failure{Key: key("C17-compile-panics"), What: "expr.Compile of the operator form panicked", Input: in, Want: "a program or an error", Got: ea.Error(), Replay: string(rp)})
 		return false
@@ -1360,6 +1416,7 @@ func runC17() {
 				}
 			}
 			seen := map[string]bool{}
+			nVisitor, maxVisitor := 0, nRandom/4
 			for ni, n := range nodes {
 				opSrc, exSrc := n.src(false), n.src(true)
 				if seen[opSrc] {
@@ -1409,6 +1466,24 @@ func runC17() {
 				if over > 0 {
 					distinct[tb.Name+"|"+kind+"|"+opSrc] = true
 				}
+				// the same expression through expr.Patch: C is written Y and renamed back by a visitor
+				if n.mentions("C") && (ni < nCorpus || nVisitor < maxVisitor) {
+					if ni >= nCorpus {
+						nVisitor++
+					}
+					c17Placeholder = true
+					vin := in
+					vin.Expr, vin.Explicit, vin.Visitor, vin.VisRisk = n.src(false), n.src(true), true, n.visitorRisk()
+					c17Placeholder = false
+					rep.hist("visitor mode (expr.Patch renames a placeholder)")
+					if vin.VisRisk {
+						rep.hist("input affected by finding C17-visitor-after-operators")
+					}
+					c17Judge(rep, vin, envs)
+					if over > 0 {
+						distinct[tb.Name+"|"+kind+"|visitor|"+vin.Expr] = true
+					}
+				}
 				if len(rep.Samples) < 6 && over > 1 && rng.Intn(40) == 0 {
 					rep.Samples = append(rep.Samples, map[string]interface{}{"table": tb.Name, "operators": tb.Ops, "env": kind, "expr": opSrc, "explicit_form": exSrc})
 				}
@@ -1441,6 +1516,9 @@ func runC17() {
 	rep.Extra["tables"] = len(c17Tables)
 	rep.Distinct = len(distinct)
 	rep.Rule = "inputs = (operator table, environment shape, expression): 14 tables (one / several candidates, concrete / interface / interface{} parameters, candidates as struct fields, map members, value- and pointer-receiver methods of the environment, operators + - * == != < in **, expr.Operator given twice) x struct / pointer / map environments x a written-out corpus of the positions the property names (nested, sliced and indexed operands, index, closure bodies, call and method arguments, map values and parenthesised map keys, both branches, array elements, nil operands, ill-typed occurrences) plus type-directed random expressions of depth 1-4 built from the table's own typing rules (overloaded occurrences preferred 4:1, unmatched built-in occurrences mixed in); each judged on 3 (quick) / 6 (thorough) environment values: operator form compiled with the mapping vs explicit-call form (reference resolution) compiled without any mapping - acceptance, result or error class, call log; Config.Check: 13 unusable targets x positions in the candidate list x environments x expressions. distinct_nontrivial = distinct (table, environment shape, operator-form source) with at least one overloaded occurrence"
+	if *tier != "thorough" && *shards > 8 {
+		*shards = 8 // ~170 small cases per file: fewer coqc start-ups than cases are worth
+	}
 	rep.writeShards("cases_c17", cc.header(), "c17case", "c17_mismatches", cases)
 	rep.write()
 }
